@@ -14,6 +14,8 @@ import (
 	"encoding/json"
 	"fmt"
 	"math"
+	"os"
+	"path/filepath"
 	"testing"
 	"time"
 
@@ -497,4 +499,68 @@ func TestC15JSONEndToEnd(t *testing.T) {
 	s.t = t
 	s.crossCheckFilesAndEquipment()
 	s.close()
+}
+
+// TestC15RegistrationFile - the persisted form of a registration is the 32-byte
+// key file; whatever the 32 bytes are, a restart must give back exactly them.
+func TestC15RegistrationFile(t *testing.T) {
+	ev.Rule("C15(registration file): a fresh server accepts a registration whose GCA key is drawn from boundary sets (all zero, all ones, random, a key with its last 1-4 bytes replaced by 0x00 / line feed / carriage return / space / tab / 0xff, a key made of one such byte); oracle: gcaPubKey.dat holds exactly the 32 bytes, and after a restart the server is registered with exactly those bytes; a server that refuses such a registration stays unregistered after the restart; non-trivial = key with a text-like tail; distinct by key")
+	server.VerifSetStepping(true)
+	rapid.Check(t, func(t *rapid.T) {
+		ev.Eval(1)
+		glow.SetCurrentTimeslot(0)
+		temp := keyFor("temp")
+		k := draw32(t, "gk")
+		tail := false
+		switch rapid.IntRange(0, 2).Draw(t, "tailClass") {
+		case 1:
+			b := rapid.SampledFrom([]byte{0x00, 0x0a, 0x0d, 0x20, 0x09, 0xff}).Draw(t, "tailByte")
+			for i, n := 0, rapid.IntRange(1, 4).Draw(t, "tailLen"); i < n; i++ {
+				k[31-i] = b
+			}
+			tail = true
+		case 2:
+			b := rapid.SampledFrom([]byte{0x0a, 0x0d, 0x20, 0x09}).Draw(t, "allByte")
+			for i := range k {
+				k[i] = b
+			}
+			tail = true
+		}
+		dir := world.NewServerDir(temp.Pub)
+		defer os.RemoveAll(dir)
+		defer world.StopAllLeaked()
+		S, err := world.StartServer(dir)
+		if err != nil {
+			t.Fatalf("C15: fresh server does not start: %v", err)
+		}
+		st, _, err := S.Register(k, temp)
+		if err != nil {
+			S.Close()
+			t.Fatalf("C15: registration request failed: %v", err)
+		}
+		accepted := st == 200
+		if err := S.Close(); err != nil {
+			t.Fatalf("C15: close: %v", err)
+		}
+		file, ferr := os.ReadFile(filepath.Join(dir, "gcaPubKey.dat"))
+		if accepted && (ferr != nil || !bytes.Equal(file, k[:])) {
+			t.Fatalf("C15: registration of key %x answered 200; gcaPubKey.dat holds %x (%v)", k, file, ferr)
+		}
+		S, err = world.StartServer(dir)
+		if err != nil {
+			t.Fatalf("C15: the server does not start after registering key %x (answered %d): %v", k, st, err)
+		}
+		snap := S.VerifSnapshot()
+		S.Close()
+		if snap.GCAAvailable != accepted {
+			t.Fatalf("C15: registration of key %x answered %d; after a restart registered=%v", k, st, snap.GCAAvailable)
+		}
+		if accepted && [32]byte(snap.GCAKey) != k {
+			t.Fatalf("C15: registered key %x reads back as %x after a restart", k, snap.GCAKey)
+		}
+		if tail {
+			ev.NonTrivial("c15|regfile|" + string(k[:]))
+			ev.Label("c15:registration-key-with-text-like-tail")
+		}
+	})
 }
